@@ -590,6 +590,98 @@ def listen_jobs():
     return [cases[i::16] for i in range(16)]
 
 
+# ------------------------------------------------------------------ several forwards on one connection
+def multi_case(kind, ports, close_first):
+    """two forwards of the same kind on one connection (same listen host; dynamic or fixed ports) to two
+    different destinations: each listener relays to its own destination; closing one leaves the other
+    working; when the connection ends both are released and wait_closed() returns"""
+    w = World('open_connection')
+    viol = []
+    try:
+        w.pair.handshake()
+        w.pair.server_owner = getattr(w, 'srv_owner', None)
+        loop, c = w.loop, w.pair.c
+        b1, b2 = [], []
+        w.run(loop.create_server(lambda: End('B1', b1), 'b.example', 80))
+        w.run(loop.create_server(lambda: End('B2', b2), 'c.example', 81))
+        p1, p2 = (0, 0) if ports == 'dynamic' else (18021, 18022)
+        if kind == 'remote':
+            l1 = w.run(c.forward_remote_port('127.0.0.1', p1, 'b.example', 80))
+            l2 = w.run(c.forward_remote_port('127.0.0.1', p2, 'c.example', 81))
+        elif kind == 'local':
+            l1 = w.run(c.forward_local_port('127.0.0.1', p1, 'b.example', 80))
+            l2 = w.run(c.forward_local_port('127.0.0.1', p2, 'c.example', 81))
+        else:
+            l1 = w.run(c.forward_remote_port('127.0.0.1', p1, 'b.example', 80))
+            l2 = w.run(c.forward_local_port('127.0.0.1', p2, 'c.example', 81))
+        if l1.get_port() == l2.get_port():
+            viol.append(('same-port', 'both listeners report port %d' % l1.get_port()))
+
+        def talk(lst, tag, sink):
+            a = End('A' + tag, [])
+            n0 = len(sink)
+            t = loop.create_task(loop.create_connection(lambda: a, '127.0.0.1', lst.get_port()))
+            loop.flush_all()
+            if not t.done() or t.exception() is not None:
+                return 'connect-failed'
+            a.t.write(b'to-' + tag.encode())
+            loop.flush_all()
+            if len(sink) <= n0 or sink[-1].data != b'to-' + tag.encode():
+                return 'data went to %r' % ([e.name + ':' + e.data.decode('latin1') for e in b1 + b2][-3:],)
+            sink[-1].t.write(b'from-' + tag.encode())
+            loop.flush_all()
+            if a.data != b'from-' + tag.encode():
+                return 'reply %r' % a.data
+            a.t.close()
+            loop.flush_all()
+            return 'ok'
+        r1, r2 = talk(l1, '1', b1), talk(l2, '2', b2)
+        if r1 != 'ok' or r2 != 'ok':
+            viol.append(('misrouted', 'listener 1 -> %s ; listener 2 -> %s' % (r1, r2)))
+        first, second, sink2, tag2 = (l1, l2, b2, '2') if close_first == 1 else (l2, l1, b1, '1')
+        first.close()
+        loop.flush_all()
+        r = talk(second, tag2, sink2)
+        if r != 'ok':
+            viol.append(('other-forward-broken-by-close', 'after closing one listener the other gives: %s' % r))
+        wc = [loop.create_task(l.wait_closed()) for l in (l1, l2)]
+        c.close()
+        loop.flush_all()
+        for i, t in enumerate(wc):
+            if not t.done():
+                viol.append(('listener-wait-closed-hangs', 'wait_closed() of listener %d pending after the connection ended' % (i + 1)))
+        left = [a for a in loop.listeners if isinstance(a, tuple) and a[0] == '127.0.0.1']
+        if left:
+            viol.append(('listener-leaked', repr(left)))
+        for conn in (w.pair.c, w.pair.s):
+            for attr in ('_remote_listeners', '_dynamic_remote_listeners', '_local_listeners'):
+                if getattr(conn, attr, None):
+                    viol.append(('listener-registered-on-closed-connection', '%s: %r' % (attr, list(getattr(conn, attr)))))
+        if loop.unretrieved():
+            viol.append(('loop-exception', repr(loop.exc_log[0].get('exception'))[:200]))
+    except Livelock as exc:
+        viol.append(('livelock', str(exc)))
+    finally:
+        w.close()
+    return viol
+
+
+def multi_worker(job):
+    acc = core.Acc()
+    for kind, ports, close_first in job:
+        viol = multi_case(kind, ports, close_first)
+        acc.add(core.digest(('multi', kind, ports, close_first)), transitions=6,
+                sample={'two_forwards': kind, 'ports': ports, 'closed_first': close_first} if kind == 'remote' and ports == 'dynamic' else None)
+        for k, d in viol:
+            acc.violation('forward:%s:two-%s-%s' % (k, kind, ports), '%s ; close_first=%d' % (d, close_first),
+                          {'kind': 'multi', 'case': [kind, ports, close_first]})
+    return acc
+
+
+def multi_jobs():
+    return [[(kind, ports, cf)] for kind in ('remote', 'local', 'mixed') for ports in ('dynamic', 'fixed') for cf in (1, 2)]
+
+
 # ------------------------------------------------------------------ SOCKS grid end to end
 def socks_worker(job):
     acc = core.Acc()
@@ -750,6 +842,7 @@ def main(tier, seed):
     acc.merge(core.pmap(socks_worker, socks_jobs(tier)))
     n_c = acc.evaluations - n_a - n_b
     acc.merge(core.pmap(listen_worker, listen_jobs()))
+    acc.merge(core.pmap(multi_worker, multi_jobs()))
     rule = ('forwarding kinds {local, remote, local path, remote path, SOCKS5, SOCKS4, SOCKS4a} x 9 scripted '
             'conversations (duplex writes incl. 300 bytes, half-close in each order, close by either end, EOF before '
             'any data); at every point the explorer may deliver any pending pipe, run the next application action '
@@ -759,7 +852,9 @@ def main(tier, seed):
             'application answer x 3 destinations for direct-tcpip and tcpip-forward; SOCKS requests: 5 valid forms, '
             'every truncation, byte-at-a-time delivery and single-byte field variations vs a reference parser; listen '
             'requests {local, SOCKS, remote} for a name with 1-3 addresses x which address is already taken x how '
-            'the listener ends {closed, either connection closed, connection lost}: nothing left bound')
+            'the listener ends {closed, either connection closed, connection lost}: nothing left bound; two forwards '
+            '(remote, local, mixed; dynamic or fixed ports) on one connection: each relays to its own destination, '
+            'closing one leaves the other working, both are released at the end')
     return core.finish(PROP, tier, seed, 'model_checking', acc, t0, rule,
                        {'exploration_execs': n_a, 'permission_cases': n_b, 'socks_cases': n_c, 'listen_cases': acc.evaluations - n_a - n_b - n_c},
                        assumptions=['TCP endpoints A and B are virtual transports; listening sockets are real '
@@ -775,6 +870,10 @@ def replay(rep):
     elif r['kind'] == 'perm':
         c = r['case']
         acc = perm_worker([(c[0], c[1], c[2], tuple(c[3]))])
+        v = acc.violations
+        print(json.dumps(v, indent=1, default=repr))
+    elif r['kind'] == 'multi':
+        acc = multi_worker([tuple(r['case'])])
         v = acc.violations
         print(json.dumps(v, indent=1, default=repr))
     elif r['kind'] == 'listen':
